@@ -26,6 +26,7 @@ THEOREMS = [
     "RedunModel.C25.sched_preserves_closed",
     "RedunModel.C25.chain_no_stale_replay",
     "RedunModel.C25.task_start_rollback_durable",
+    "RedunModel.C25.task_start_all_arguments_rolled_back",
     "RedunModel.C25.crash_no_stale_replay",
     "RedunModel.C25.late_rollback_refuted",
 ]
@@ -46,6 +47,8 @@ ASSUMPTIONS = [
     "workflow histories: tasks pass the handle through (`return h`), results contain exactly one handle; task edits are version changes",
     "parallel writers: each task call receives its own fork of the shared state, so (docs/source/values.md) editing one writer must "
     "re-execute that writer and the writers downstream of a merge with it, and no sibling",
+    "fan-in tasks (join) receive several states of one handle name as separate arguments or inside one dict/list argument; for the "
+    "container form only stale replays are judged (its cache key is pickle-based and not stable across executions, C16)",
     "external system semantics used by the end-to-end oracle: a task's write replaces the content at its depth and makes deeper content "
     "stale; the oracle only demands that after a run every depth holds what the requested chain says (never how many tasks ran)",
 ]
@@ -58,7 +61,9 @@ RULE = ("(a) raw histories of advance_handle (single parent, merged parents, for
         "writers on one handle state (2 writers + merge_handles + one more writer as in docs/source/values.md; 3 writers without merge), one "
         "branch edited / reverted / re-run unchanged: spied backend calls vs raw model, every is_valid_handle answer vs reference, and for "
         "the parallel writers the docs' rule: exactly the edited writer (and the writer after the merge) re-executes, every returned "
-        "handle is valid, an unchanged re-run executes nothing. "
+        "handle is valid, an unchanged re-run executes nothing; the same rule for an ordinary fan-in task join(a, b) / join({x: [a, b], "
+        "y: {z: d}}) that receives several states of ONE handle name and returns one of them, followed by a consumer, with join edited "
+        "and reverted. "
         "(d) chain executions on a sqlite FILE repository with tasks inline on the scheduler thread, 1-2 executions per history killed right "
         "after a chosen task started writing (the database file as it is at that instant is what the next execution opens), then edits / "
         "reverts: at every task entry a fresh connection must see every state rolled back for that task invalid; external-system oracle "
@@ -620,6 +625,27 @@ def make_prog(kind, vers):
                 return [la(conn), lb(conn), ld(conn)]
         m = task(name="c25_main_" + kind, namespace="verif", version="m%s" % json.dumps(vers, sort_keys=True))(_named(main, "c25_main_" + kind))
         return m()
+    if kind in JOIN_KINDS:
+        # an ordinary task that receives SEVERAL states of one handle name (fan-in without merge_handles), then a consumer
+        la = T("c25_load_a", lambda h: (EXEC.append("a"), h)[1])
+        lb = T("c25_load_b", lambda h: (EXEC.append("b"), h)[1])
+        ld = T("c25_load_d", lambda h: (EXEC.append("d"), h)[1])
+        after = T("c25_after", lambda h: (EXEC.append("f"), h)[1])
+        pick = JOIN_KINDS[kind]
+        if kind.startswith("joinl"):
+            join = T("c25_join", lambda hs: (EXEC.append("j"), (hs["x"] + [hs["y"]["z"]])[pick])[1])
+
+            def main():
+                conn = H("w" + kind)
+                return after(join({"x": [la(conn), lb(conn)], "y": {"z": ld(conn)}}))
+        else:
+            join = T("c25_join", lambda x, y: (EXEC.append("j"), (x, y)[pick])[1])
+
+            def main():
+                conn = H("w" + kind)
+                return after(join(la(conn), lb(conn)))
+        m = task(name="c25_main_" + kind, namespace="verif", version="m%s" % json.dumps(vers, sort_keys=True))(_named(main, "c25_main_" + kind))
+        return m()
     raise ValueError(kind)
 
 
@@ -628,12 +654,23 @@ def _named(fn, name):
     return fn
 
 
-PAR_TASKS = {"par": ["c25_load_a", "c25_load_b", "c25_load_c"], "par2": ["c25_load_a", "c25_load_b", "c25_load_d"]}
-SHORT = {"c25_load_a": "a", "c25_load_b": "b", "c25_load_c": "c", "c25_load_d": "d"}
+# which argument `join` returns
+JOIN_KINDS = {"join0": 0, "join1": 1, "joinl1": 1, "joinl2": 2}
+# per program: (task name, short name in EXEC, tasks whose re-execution forces this one to re-execute), in evaluation order
+DEPS = {
+    "par": [("c25_load_a", "a", []), ("c25_load_b", "b", []), ("c25_load_c", "c", ["a", "b"])],
+    "par2": [("c25_load_a", "a", []), ("c25_load_b", "b", []), ("c25_load_d", "d", [])],
+    "join0": [("c25_load_a", "a", []), ("c25_load_b", "b", []), ("c25_join", "j", ["a", "b"]), ("c25_after", "f", ["j"])],
+    "joinl1": [("c25_load_a", "a", []), ("c25_load_b", "b", []), ("c25_load_d", "d", []), ("c25_join", "j", ["a", "b", "d"]),
+               ("c25_after", "f", ["j"])],
+}
+CONTAINER_ARGS = {"joinl1", "joinl2"}
+DEPS["join1"] = DEPS["join0"]
+DEPS["joinl2"] = DEPS["joinl1"]
 
 
 def gen_prog_history(rng):
-    kind = rng.choice(["fork", "fork", "par", "par", "par2", "par2"])
+    kind = rng.choice(["fork", "fork", "par", "par", "par2", "par2", "join0", "join1", "join1", "joinl1", "joinl2", "joinl2"])
     runs = rng.randrange(2, 6)
     hist, pool = [], []
     cur = {}
@@ -645,7 +682,8 @@ def gen_prog_history(rng):
                 k = rng.choice(["body", "body", "c25_step", "c25_step2"])
                 cur[k] = rng.choice([v for v in (0, 1, 2) if v != cur.get(k, 0)]) if k == "body" else 1 - cur.get(k, 0)
             else:
-                k = rng.choice(PAR_TASKS[kind])
+                names = [t for t, _, _ in DEPS[kind]]
+                k = rng.choice(names + (["c25_join", "c25_join"] if "c25_join" in names else []))
                 cur[k] = 1 - cur.get(k, 0)
         elif r < 0.8:
             cur = dict(rng.choice(pool))
@@ -663,6 +701,11 @@ PROG_CORPUS = [
     {"kind": "par", "runs": [{}, {"c25_load_b": 1}, {"c25_load_b": 1}, {"c25_load_a": 1, "c25_load_b": 1}, {"c25_load_a": 1, "c25_load_b": 1}]},
     {"kind": "par2", "runs": [{}, {"c25_load_b": 1}, {"c25_load_b": 1}]},
     {"kind": "par2", "runs": [{}, {"c25_load_a": 1}, {"c25_load_a": 1}, {"c25_load_d": 1, "c25_load_a": 1}, {}]},
+    # a task taking several states of one handle name: edit it, revert it, re-run unchanged
+    {"kind": "join1", "runs": [{}, {"c25_join": 1}, {}, {}]},
+    {"kind": "join0", "runs": [{}, {"c25_join": 1}, {}, {"c25_load_b": 1}, {"c25_load_b": 1}]},
+    {"kind": "joinl2", "runs": [{}, {"c25_join": 1}, {}, {"c25_join": 1}, {}]},
+    {"kind": "joinl1", "runs": [{}, {"c25_join": 1}, {}, {"c25_join": 1}, {"c25_join": 1, "c25_load_a": 1}, {}]},
 ]
 
 
@@ -681,7 +724,7 @@ def prog_oracle(ctx, ph, runs):
     writer after the merge also when a merged branch re-executed); every handle an execution returns is valid; an
     unchanged re-run executes nothing."""
     kind = ph["kind"]
-    if kind not in PAR_TASKS:
+    if kind not in DEPS:
         return "ok"
     held, prev = {}, None
     for n, (vers, r) in enumerate(zip(ph["runs"], runs)):
@@ -689,22 +732,27 @@ def prog_oracle(ctx, ph, runs):
         if r["err"]:
             return "ok"     # reported by the caller
         must = set()
-        branches = [t for t in PAR_TASKS[kind] if t != "c25_load_c"]
-        for t in branches:
-            if held.get(t) != vers.get(t, 0):
-                must.add(SHORT[t])
-        if kind == "par" and (must or held.get("c25_load_c") != vers.get("c25_load_c", 0)):
-            must.add("c")
+        for t, short, deps in DEPS[kind]:
+            if held.get(t) != vers.get(t, 0) or any(d in must for d in deps):
+                must.add(short)
         ran = sorted(r["ran"])
         if not must <= set(ran):
-            ctx.violation("C25-stale-branch-state-replayed", "a parallel writer whose task changed (or the writer after the merge of a "
-                          "re-executed branch) was not re-executed", case=case, expected=sorted(must), actual=ran, kind="history")
+            ctx.violation("C25-stale-branch-state-replayed", "a task that changed, or that consumes a handle state which was re-written, "
+                          "was not re-executed: its superseded cached state was replayed", case=case, expected=sorted(must), actual=ran, kind="history")
             return "violation"
         if r["valid"] is not None and not all(r["valid"]):
             ctx.violation("C25-returned-handle-state-invalid", "an execution returned a handle state that the backend holds invalid "
                           "(a sibling fork was rolled back together with the edited branch)", case=case,
                           expected=[True] * len(r["valid"]), actual=r["valid"], kind="history")
             return "violation"
+        if kind in CONTAINER_ARGS:
+            # a dict / list of handles as ONE argument is hashed through pickle, whose bytes depend on which strings the
+            # handle objects share (fresh vs unpickled objects): the cache key of `join` is not stable across executions
+            # (value hashing, property C16) — needless re-execution is therefore not judged here, only stale replays
+            for t, _, _ in DEPS[kind]:
+                held[t] = vers.get(t, 0)
+            prev = vers
+            continue
         if prev == vers and ran:
             ctx.violation("C25-unchanged-rerun-executes", "re-running the unchanged workflow executed tasks", case=case, expected=[],
                           actual=ran, kind="history")
@@ -714,7 +762,7 @@ def prog_oracle(ctx, ph, runs):
                           "neither its task nor its input state changed (rollback not confined to the fork)", case=case,
                           expected=sorted(must), actual=ran, kind="history")
             return "violation"
-        for t in PAR_TASKS[kind]:
+        for t, _, _ in DEPS[kind]:
             held[t] = vers.get(t, 0)
         prev = vers
     return "ok"
